@@ -1,16 +1,16 @@
 # C03 — Transmit queue: exactly once, on time  (fake_trx world property; shared machinery in lib/worldcheck.py)
 from lib import vf, worldcheck as wc
-from props import trxcon_part
+from props import trxcon_part, randburst_part
 
 ID = "C03"
 LEVEL = "proof"
-LEAN_MODULES = ["OsmoVerif.Props.C03"] + (["OsmoVerif.Props.Trxcon"] if ID == "C05" else [])
-LEAN_MODEL_MODULES = wc.LEAN_MODEL_MODULES + (trxcon_part.LEAN_MODEL_MODULES if ID == "C05" else [])
-DRIVER_MODULES = wc.DRIVER_MODULES + (["TrxconIf"] if ID == "C05" else [])
-ASSUMPTIONS = wc.ASSUMPTIONS + []
+LEAN_MODULES = ["OsmoVerif.Props.C03"] + (["OsmoVerif.Props.Trxcon"] if ID == "C05" else []) + (randburst_part.LEAN_MODULES if ID == "C10" else [])
+LEAN_MODEL_MODULES = wc.LEAN_MODEL_MODULES + (trxcon_part.LEAN_MODEL_MODULES if ID == "C05" else []) + (randburst_part.LEAN_MODEL_MODULES if ID == "C10" else [])
+DRIVER_MODULES = wc.DRIVER_MODULES + (["TrxconIf"] if ID == "C05" else []) + (randburst_part.DRIVER_MODULES if ID == "C10" else [])
+ASSUMPTIONS = wc.ASSUMPTIONS + [] + (randburst_part.ASSUMPTIONS if ID == "C10" else [])
 MANIFEST = {
     "text": 'Lean theorems: every accepted burst has exactly one outcome (emitted at the tick of its own FN, reported stale, cleared by power-off) or is still queued, for every history incl. clock jumps and the hyperframe wrap (modular comparison), and in every reachable state of an interleaving semantics of socket-thread operations with the atomic actions of a tick; correspondence of queues, stale reports and emissions; oracle judges routing decisions, stale counts and queue lengths on the real code',
-    "note": 'trusted: Lean kernel (+propext, Classical.choice, Quot.sound); translators gen/world.py, gen/py_unicode.py, gen/trxd_consts.py, gen/hopping.py; the world harness (in-memory sockets, inert clock thread, deterministic randint) and the property reference lib/worldspec.py; modelled not verified: UDP/select, OS scheduling below whole operations, time.sleep, logging',
+    "note": 'trusted: Lean kernel (+propext, Classical.choice, Quot.sound); translators gen/world.py, gen/py_unicode.py, gen/trxd_consts.py, gen/hopping.py; the world harness (in-memory sockets, the real CLCKGen._worker loop in lock step in its own OS thread, deterministic randint) and the property reference lib/worldspec.py; modelled not verified: UDP/select, OS scheduling below whole operations, time.sleep, logging',
     "technique": 'Lean 4 proof over the executable world model; differential correspondence of whole histories against the real FakeTRX objects; black-box property reference as failing-input oracle',
     "design_ref": "DESIGN.md section 5 C03",
 }
@@ -28,6 +28,8 @@ def correspond(run, corr):
     wc.correspond(run, corr, CORR_PROFILES, 10000, 150000)
     if ID == "C05":
         trxcon_part.correspond(run, corr, parts=("cmd", "rsp"))
+    if ID == "C10":
+        randburst_part.correspond(run, corr, wc.train(run))
 
 
 def search(run, corr, deep):
@@ -39,6 +41,9 @@ def search(run, corr, deep):
         # trxcon side: real trx_if.c command emission / response parser, and the cross run with the real toolkit
         found += trxcon_part.oracle(run, corr, deep, parts=("cmd", "rsp"))
         found += wc.c05_cross(run, corr, deep)
+    if ID == "C10":
+        # the burst generators of rand_burst_gen.py against the TS 45.002 burst layouts
+        found += randburst_part.oracle(run, corr, deep, wc.train(run))
     return found
 
 
@@ -49,6 +54,10 @@ def replay(run, path):
     bad = 0
     for w in tc:
         still, text = trxcon_part.replay(run, w)
+        print(text)
+        bad += bool(still)
+    for w in [v["witness"] for v in rp.get("violations", []) if (v.get("witness") or {}).get("kind") == "burst-generator"]:
+        still, text = randburst_part.replay(run, w, wc.train(run))
         print(text)
         bad += bool(still)
     rc = wc.replay(run, path, ID)
